@@ -1050,6 +1050,12 @@ func (em *emitter) emitForRange(node *ast.ForRange) {
 
 	inForRange := em.inForRange
 	em.inForRange = true
+	// A "break" in the body of the range statement refers to the range
+	// statement, not to an enclosing "for", "switch" or "select" statement.
+	breakable := em.breakable
+	breakLabel := em.breakLabel
+	em.breakable = false
+	em.breakLabel = nil
 
 	em.fb.enterScope()
 
@@ -1127,6 +1133,8 @@ func (em *emitter) emitForRange(node *ast.ForRange) {
 	em.fb.exitScope()
 	em.fb.exitScope()
 	em.inForRange = inForRange
+	em.breakable = breakable
+	em.breakLabel = breakLabel
 
 	if node.Else != nil {
 		endForLabel := em.fb.newLabel()
